@@ -68,6 +68,33 @@ type c20FSM struct {
 	rm     *RBACManager
 	idx    int64
 	tokens map[int64]*ClusterTokenEntry
+	// ids the FSM itself has stamped. Like the real FSM (whose maps are empty
+	// for rows written before the node joined the cluster) it knows nothing
+	// about pre-cluster local rows: uniqueness and parent checks only see
+	// known ids, so a Create for a name that exists locally under another id
+	// reaches the applier (upgrade seed / follower with pre-cluster rows).
+	orgs, teams, roles, mps, mems map[int64]bool
+}
+
+func c20NewFSM(am *AuthManager, rm *RBACManager, base int64) *c20FSM {
+	return &c20FSM{am: am, rm: rm, idx: base, tokens: map[int64]*ClusterTokenEntry{},
+		orgs: map[int64]bool{}, teams: map[int64]bool{}, roles: map[int64]bool{}, mps: map[int64]bool{}, mems: map[int64]bool{}}
+}
+
+// knownRow: a row matching the query exists locally AND its id was stamped by the FSM.
+func (f *c20FSM) knownRow(known map[int64]bool, q string, args ...any) bool {
+	rows, err := f.am.db.Query(q, args...)
+	if err != nil {
+		return false
+	}
+	defer rows.Close()
+	for rows.Next() {
+		var id int64
+		if rows.Scan(&id) == nil && known[id] {
+			return true
+		}
+	}
+	return false
 }
 
 func (f *c20FSM) IsLeader() bool { return true }
@@ -188,10 +215,11 @@ func (f *c20FSM) Propose(ctx context.Context, cmdType uint8, payload []byte, tim
 		if err := json.Unmarshal(payload, &p); err != nil {
 			return err
 		}
-		if f.exists(`SELECT 1 FROM rbac_organizations WHERE name = ?`, p.Organization.Name) {
+		if f.knownRow(f.orgs, `SELECT id FROM rbac_organizations WHERE name = ?`, p.Organization.Name) {
 			return errors.New("organization name already exists")
 		}
 		id := f.next()
+		f.orgs[id] = true
 		return f.rm.ApplyCreateOrganization(ClusterOrganizationEntry{ID: id, Name: p.Organization.Name,
 			Description: p.Organization.Description, CreatedAtUnixNano: p.Organization.CreatedAtUnixNano,
 			UpdatedAtUnixNano: p.Organization.UpdatedAtUnixNano, Enabled: true, LSN: uint64(id)})
@@ -205,14 +233,14 @@ func (f *c20FSM) Propose(ctx context.Context, cmdType uint8, payload []byte, tim
 		if err != nil {
 			return err
 		}
-		if ex == nil {
+		if ex == nil || !f.orgs[p.ID] {
 			return fmt.Errorf("organization %d not found", p.ID)
 		}
 		e := ClusterOrganizationEntry{ID: p.ID, Name: ex.Name, Description: ex.Description,
 			CreatedAtUnixNano: ex.CreatedAt.UnixNano(), UpdatedAtUnixNano: p.UpdatedAtUnixNano, Enabled: ex.Enabled, LSN: uint64(id)}
 		ch := c20Changed(p.ChangedFields)
 		if ch["name"] {
-			if f.exists(`SELECT 1 FROM rbac_organizations WHERE name = ? AND id <> ?`, p.Name, p.ID) {
+			if f.knownRow(f.orgs, `SELECT id FROM rbac_organizations WHERE name = ? AND id <> ?`, p.Name, p.ID) {
 				return errors.New("organization name already exists")
 			}
 			e.Name = p.Name
@@ -230,6 +258,10 @@ func (f *c20FSM) Propose(ctx context.Context, cmdType uint8, payload []byte, tim
 			return err
 		}
 		f.next()
+		if !f.orgs[p.ID] {
+			return nil // unknown to the FSM: idempotent no-op, no callback
+		}
+		delete(f.orgs, p.ID)
 		return f.rm.ApplyDeleteOrganization(p.ID)
 
 	case ProposalCommandCreateTeam:
@@ -237,13 +269,14 @@ func (f *c20FSM) Propose(ctx context.Context, cmdType uint8, payload []byte, tim
 		if err := json.Unmarshal(payload, &p); err != nil {
 			return err
 		}
-		if !f.exists(`SELECT 1 FROM rbac_organizations WHERE id = ?`, p.Team.OrganizationID) {
+		if !f.orgs[p.Team.OrganizationID] || !f.exists(`SELECT 1 FROM rbac_organizations WHERE id = ?`, p.Team.OrganizationID) {
 			return fmt.Errorf("organization %d not found", p.Team.OrganizationID)
 		}
-		if f.exists(`SELECT 1 FROM rbac_teams WHERE organization_id = ? AND name = ?`, p.Team.OrganizationID, p.Team.Name) {
+		if f.knownRow(f.teams, `SELECT id FROM rbac_teams WHERE organization_id = ? AND name = ?`, p.Team.OrganizationID, p.Team.Name) {
 			return errors.New("team name already exists in this organization")
 		}
 		id := f.next()
+		f.teams[id] = true
 		return f.rm.ApplyCreateTeam(ClusterTeamEntry{ID: id, OrganizationID: p.Team.OrganizationID, Name: p.Team.Name,
 			Description: p.Team.Description, CreatedAtUnixNano: p.Team.CreatedAtUnixNano,
 			UpdatedAtUnixNano: p.Team.UpdatedAtUnixNano, Enabled: true, LSN: uint64(id)})
@@ -257,7 +290,7 @@ func (f *c20FSM) Propose(ctx context.Context, cmdType uint8, payload []byte, tim
 		if err != nil {
 			return err
 		}
-		if ex == nil {
+		if ex == nil || !f.teams[p.ID] {
 			return fmt.Errorf("team %d not found", p.ID)
 		}
 		e := ClusterTeamEntry{ID: p.ID, OrganizationID: ex.OrganizationID, Name: ex.Name, Description: ex.Description,
@@ -279,6 +312,10 @@ func (f *c20FSM) Propose(ctx context.Context, cmdType uint8, payload []byte, tim
 			return err
 		}
 		f.next()
+		if !f.teams[p.ID] {
+			return nil
+		}
+		delete(f.teams, p.ID)
 		return f.rm.ApplyDeleteTeam(p.ID)
 
 	case ProposalCommandCreateRole:
@@ -286,10 +323,11 @@ func (f *c20FSM) Propose(ctx context.Context, cmdType uint8, payload []byte, tim
 		if err := json.Unmarshal(payload, &p); err != nil {
 			return err
 		}
-		if !f.exists(`SELECT 1 FROM rbac_teams WHERE id = ?`, p.Role.TeamID) {
+		if !f.teams[p.Role.TeamID] || !f.exists(`SELECT 1 FROM rbac_teams WHERE id = ?`, p.Role.TeamID) {
 			return fmt.Errorf("team %d not found", p.Role.TeamID)
 		}
 		id := f.next()
+		f.roles[id] = true
 		return f.rm.ApplyCreateRole(ClusterRoleEntry{ID: id, TeamID: p.Role.TeamID, DatabasePattern: p.Role.DatabasePattern,
 			Permissions: p.Role.Permissions, CreatedAtUnixNano: p.Role.CreatedAtUnixNano, LSN: uint64(id)})
 	case ProposalCommandUpdateRole:
@@ -302,7 +340,7 @@ func (f *c20FSM) Propose(ctx context.Context, cmdType uint8, payload []byte, tim
 		if err != nil {
 			return err
 		}
-		if ex == nil {
+		if ex == nil || !f.roles[p.ID] {
 			return fmt.Errorf("role %d not found", p.ID)
 		}
 		e := ClusterRoleEntry{ID: p.ID, TeamID: ex.TeamID, DatabasePattern: ex.DatabasePattern,
@@ -321,6 +359,10 @@ func (f *c20FSM) Propose(ctx context.Context, cmdType uint8, payload []byte, tim
 			return err
 		}
 		f.next()
+		if !f.roles[p.ID] {
+			return nil
+		}
+		delete(f.roles, p.ID)
 		return f.rm.ApplyDeleteRole(p.ID)
 
 	case ProposalCommandCreateMeasurementPermission:
@@ -329,10 +371,11 @@ func (f *c20FSM) Propose(ctx context.Context, cmdType uint8, payload []byte, tim
 			return err
 		}
 		mp := p.MeasurementPermission
-		if !f.exists(`SELECT 1 FROM rbac_roles WHERE id = ?`, mp.RoleID) {
+		if !f.roles[mp.RoleID] || !f.exists(`SELECT 1 FROM rbac_roles WHERE id = ?`, mp.RoleID) {
 			return fmt.Errorf("role %d not found", mp.RoleID)
 		}
 		id := f.next()
+		f.mps[id] = true
 		return f.rm.ApplyCreateMeasurementPermission(ClusterMeasurementPermissionEntry{ID: id, RoleID: mp.RoleID,
 			MeasurementPattern: mp.MeasurementPattern, Permissions: mp.Permissions, CreatedAtUnixNano: mp.CreatedAtUnixNano, LSN: uint64(id)})
 	case ProposalCommandDeleteMeasurementPermission:
@@ -341,6 +384,10 @@ func (f *c20FSM) Propose(ctx context.Context, cmdType uint8, payload []byte, tim
 			return err
 		}
 		f.next()
+		if !f.mps[p.ID] {
+			return nil
+		}
+		delete(f.mps, p.ID)
 		return f.rm.ApplyDeleteMeasurementPermission(p.ID)
 
 	case ProposalCommandAddTokenToTeam:
@@ -349,16 +396,17 @@ func (f *c20FSM) Propose(ctx context.Context, cmdType uint8, payload []byte, tim
 			return err
 		}
 		m := p.Membership
-		if !f.exists(`SELECT 1 FROM rbac_teams WHERE id = ?`, m.TeamID) {
+		if !f.teams[m.TeamID] || !f.exists(`SELECT 1 FROM rbac_teams WHERE id = ?`, m.TeamID) {
 			return fmt.Errorf("team %d not found", m.TeamID)
 		}
 		if _, ok := f.tokens[m.TokenID]; !ok {
 			return fmt.Errorf("token %d not found", m.TokenID)
 		}
-		if f.exists(`SELECT 1 FROM rbac_token_memberships WHERE token_id = ? AND team_id = ?`, m.TokenID, m.TeamID) {
+		if f.knownRow(f.mems, `SELECT id FROM rbac_token_memberships WHERE token_id = ? AND team_id = ?`, m.TokenID, m.TeamID) {
 			return errors.New("token is already a member of this team")
 		}
 		id := f.next()
+		f.mems[id] = true
 		return f.rm.ApplyAddTokenToTeam(ClusterTokenMembershipEntry{ID: id, TokenID: m.TokenID, TeamID: m.TeamID,
 			CreatedAtUnixNano: m.CreatedAtUnixNano, LSN: uint64(id)})
 	case ProposalCommandRemoveTokenFromTeam:
@@ -367,6 +415,9 @@ func (f *c20FSM) Propose(ctx context.Context, cmdType uint8, payload []byte, tim
 			return err
 		}
 		f.next()
+		if !f.knownRow(f.mems, `SELECT id FROM rbac_token_memberships WHERE token_id = ? AND team_id = ?`, p.TokenID, p.TeamID) {
+			return nil
+		}
 		return f.rm.ApplyRemoveTokenFromTeam(p.TokenID, p.TeamID)
 	}
 	return fmt.Errorf("c20FSM: unknown command type %d", cmdType)
@@ -586,7 +637,8 @@ type c20World struct {
 	am       *AuthManager
 	rm       *RBACManager
 	db       *sql.DB
-	cluster  bool
+	cluster  bool // mutations currently go through proposer -> FSM -> appliers
+	mixed    bool // starts in direct-DB mode and joins the cluster at a drawn step
 	licensed bool
 	fsm      *c20FSM
 	gen      int
@@ -641,11 +693,45 @@ func c20NewWorld(t *rapid.T, cluster, licensed, onDisk bool) *c20World {
 		t.Fatalf("harness: licence seam did not enable RBAC")
 	}
 	if cluster {
-		w.fsm = &c20FSM{am: am, rm: w.rm, tokens: map[int64]*ClusterTokenEntry{}}
-		am.SetRaftProposer(w.fsm)
-		w.rm.SetRaftProposer(w.fsm)
+		w.join(0)
 	}
 	return w
+}
+
+// join wires the proposer: from here on every manager write is proposed to the
+// fake FSM and lands through the appliers. base is the first log index.
+func (w *c20World) join(base int64) {
+	w.fsm = c20NewFSM(w.am, w.rm, base)
+	w.am.SetRaftProposer(w.fsm)
+	w.rm.SetRaftProposer(w.fsm)
+	w.cluster = true
+}
+
+func (w *c20World) modeName() string {
+	switch {
+	case w.mixed && w.cluster:
+		return "mixed(joined)"
+	case w.mixed:
+		return "mixed(pre-join)"
+	case w.cluster:
+		return "cluster-apply"
+	}
+	return "direct"
+}
+
+// adopt re-attaches org/team slots to rows found by their slot name (an
+// upgrade re-align re-inserts the organization under a new id).
+func (w *c20World) adopt() {
+	for i := range w.org {
+		if w.org[i] == 0 {
+			_ = w.db.QueryRow(`SELECT id FROM rbac_organizations WHERE name = ?`, fmt.Sprintf("org%d", i)).Scan(&w.org[i])
+		}
+	}
+	for i := range w.team {
+		if w.team[i] == 0 {
+			_ = w.db.QueryRow(`SELECT id FROM rbac_teams WHERE name = ? ORDER BY id LIMIT 1`, fmt.Sprintf("team%d", i)).Scan(&w.team[i])
+		}
+	}
 }
 
 func (w *c20World) close() {
@@ -739,6 +825,7 @@ var c20Actions = []string{
 	"createMP", "createMP", "deleteMP", "deleteMP",
 	"addMember", "addMember", "addMember", "removeMember", "removeMember",
 	"createToken", "createToken", "updateTokenPerms", "updateTokenPerms", "updateTokenExpiry", "revokeToken", "deleteToken", "rotateToken",
+	"seedFromLocal", "rawApply", "rawApply",
 }
 
 func (w *c20World) errStr(err error) string {
@@ -794,6 +881,80 @@ func (w *c20World) step(forced string) string {
 	case "check":
 		w.logf("check")
 		return ""
+	case "joinCluster":
+		// the node joins a cluster: the FSM starts empty, log indexes either far
+		// from or overlapping the local AUTOINCREMENT ids
+		base := int64(1000)
+		if rapid.IntRange(0, 3).Draw(t, "fsm-base-overlaps-local-ids") == 0 {
+			base = 0
+		}
+		w.join(base)
+		w.logf("joinCluster fsm-base=%d", base)
+		if rapid.Bool().Draw(t, "seed-on-join") {
+			err := w.rm.SeedRBACFromLocalSQLite(ctx)
+			w.logf("seedFromLocal (on join) -> %s", w.errStr(err))
+		}
+	case "seedFromLocal":
+		if !w.mixed || !w.cluster {
+			return ""
+		}
+		err := w.rm.SeedRBACFromLocalSQLite(ctx)
+		w.logf("seedFromLocal -> %s", w.errStr(err))
+	case "rawApply":
+		// A replicated Create arriving at a node that already holds a local row
+		// with the same business key: same id (log replay) or a different id
+		// (pre-cluster row / upgrade seed).
+		if !w.mixed || !w.cluster {
+			return ""
+		}
+		sameID := rapid.IntRange(0, 3).Draw(t, "same-id") == 0
+		var err error
+		switch rapid.SampledFrom([]string{"org", "org", "team", "role"}).Draw(t, "raw-kind") {
+		case "org":
+			i := w.pick("org", w.org[:], true)
+			id := w.fsm.next()
+			if sameID && w.org[i] != 0 {
+				id = w.org[i]
+			}
+			w.fsm.orgs[id] = true
+			err = w.rm.ApplyCreateOrganization(ClusterOrganizationEntry{ID: id, Name: fmt.Sprintf("org%d", i),
+				CreatedAtUnixNano: w.now.UnixNano(), UpdatedAtUnixNano: w.now.UnixNano(), Enabled: true, LSN: uint64(id)})
+			w.logf("rawApply CreateOrganization name=org%d id=%d (local id %d) -> %s", i, id, w.org[i], w.errStr(err))
+		case "team":
+			i := w.pick("team", w.team[:], true)
+			j := w.pick("org", w.org[:], true)
+			orgID := c20IDOr(w.org[j])
+			if w.team[i] != 0 {
+				_ = w.db.QueryRow(`SELECT organization_id FROM rbac_teams WHERE id = ?`, w.team[i]).Scan(&orgID)
+			}
+			id := w.fsm.next()
+			if sameID && w.team[i] != 0 {
+				id = w.team[i]
+			}
+			err = w.rm.ApplyCreateTeam(ClusterTeamEntry{ID: id, OrganizationID: orgID, Name: fmt.Sprintf("team%d", i),
+				CreatedAtUnixNano: w.now.UnixNano(), UpdatedAtUnixNano: w.now.UnixNano(), Enabled: true, LSN: uint64(id)})
+			if err == nil {
+				w.fsm.teams[id] = true
+			}
+			w.logf("rawApply CreateTeam name=team%d org=%d id=%d (local id %d) -> %s", i, orgID, id, w.team[i], w.errStr(err))
+		case "role":
+			i := w.pick("role", w.role[:], true)
+			e := ClusterRoleEntry{ID: w.fsm.next(), TeamID: c20IDOr(w.team[w.pick("team", w.team[:], true)]),
+				DatabasePattern: rapid.SampledFrom(c20DBPatterns).Draw(t, "dbpat"),
+				Permissions:     strings.Join(c20PermSet(t, "perms", false), ","), CreatedAtUnixNano: w.now.UnixNano()}
+			if w.role[i] != 0 {
+				var perms string
+				_ = w.db.QueryRow(`SELECT team_id, database_pattern, permissions FROM rbac_roles WHERE id = ?`, w.role[i]).Scan(&e.TeamID, &e.DatabasePattern, &perms)
+				if sameID {
+					e.ID = w.role[i]
+				}
+			}
+			err = w.rm.ApplyCreateRole(e)
+			if err == nil {
+				w.fsm.roles[e.ID] = true
+			}
+			w.logf("rawApply CreateRole id=%d team=%d pat=%s perms=%s (slot %d local id %d) -> %s", e.ID, e.TeamID, e.DatabasePattern, e.Permissions, i, w.role[i], w.errStr(err))
+		}
 	case "createOrg":
 		i := w.pick("org", w.org[:], false)
 		org, err := w.rm.CreateOrganization(ctx, &CreateOrganizationRequest{Name: fmt.Sprintf("org%d", i)})
@@ -1016,7 +1177,7 @@ func (w *c20World) expect(st *c20State, p c20Probe) (bool, string) {
 func (w *c20World) fail(class, phase string, p c20Probe, got *PermissionCheckResult, want bool, wantSrc string) {
 	was, seen := w.last[p.key()]
 	w.rt.Fatalf("VERIF-FAIL class=C20/%s phase=%s mode=%s licensed=%v probe=%s verify=%v got={allowed:%v source:%s} want={allowed:%v source:%s} previously-checked=%v previous-answer=%v last-mutation=%q\nhistory:\n  %s",
-		class, phase, map[bool]string{true: "cluster-apply", false: "direct"}[w.cluster], w.licensed, p.key(), p.verify,
+		class, phase, w.modeName(), w.licensed, p.key(), p.verify,
 		got.Allowed, got.Source, want, wantSrc, seen, was, w.lastMut, strings.Join(w.hist, "\n  "))
 }
 
@@ -1107,12 +1268,14 @@ func (w *c20World) drawProbes() []c20Probe {
 }
 
 func c20RunHistory(t *rapid.T) {
-	cluster := rapid.Bool().Draw(t, "cluster-apply-mode")
+	mode := rapid.SampledFrom([]string{"direct", "cluster-apply", "mixed"}).Draw(t, "mode")
+	cluster := mode == "cluster-apply"
 	licensed := rapid.IntRange(0, 9).Draw(t, "licensed") != 0
 	onDisk := rapid.IntRange(0, 7).Draw(t, "on-disk") == 0
 	w := c20NewWorld(t, cluster, licensed, onDisk)
 	defer w.close()
-	verifkit.Class(map[bool]string{true: "mode-cluster-apply", false: "mode-direct"}[cluster])
+	w.mixed = mode == "mixed"
+	verifkit.Class("mode-" + mode)
 	verifkit.Class(map[bool]string{true: "rbac-licensed", false: "rbac-unlicensed"}[licensed])
 
 	// Set-up: a drawn number of constructive actions in dependency order, so
@@ -1137,14 +1300,24 @@ func c20RunHistory(t *rapid.T) {
 		}
 	}
 	steps := rapid.IntRange(4, verifkit.Scale(30, 60)).Draw(t, "steps")
+	joinAt := -1
+	if w.mixed {
+		// the direct-DB state (set-up + some steps, all checked and cached) comes
+		// first; then the node joins and the rest arrives through the appliers
+		joinAt = len(plan) + rapid.IntRange(0, steps-1).Draw(t, "join-at")
+	}
 	for s := 0; s < len(plan)+steps; s++ {
 		forced := ""
 		if s < len(plan) {
 			forced = plan[s]
 		}
+		if s == joinAt {
+			forced = "joinCluster"
+		}
 		w.lastErr = nil
 		mut := w.step(forced)
 		w.sync()
+		w.adopt()
 		if mut != "" {
 			w.lastMut = mut
 			if w.lastErr == nil {
@@ -1168,11 +1341,11 @@ func c20RunHistory(t *rapid.T) {
 				want, _ := w.expect(st, p)
 				if was, ok := w.last[p.key()]; ok && was != want {
 					verifkit.Class("nontrivial-flip")
-					k := fmt.Sprintf("%v|%v|%s|%s|%v", cluster, licensed, mut, p.key(), want)
+					k := fmt.Sprintf("%s|%v|%s|%s|%v", w.modeName(), licensed, mut, p.key(), want)
 					verifkit.NonTrivial(k)
 					if verifkit.SampleCount() < 5 && !c20Sampled[mut] {
 						c20Sampled[mut] = true
-						verifkit.Sample(map[string]any{"mode": map[bool]string{true: "cluster-apply", false: "direct"}[cluster],
+						verifkit.Sample(map[string]any{"mode": w.modeName(),
 							"history_since_key_last_checked": append([]string(nil), w.hist[w.lastAt[p.key()]:]...), "probe": p.key(),
 							"answer_at_last_check": was, "answer_now": want})
 					}
